@@ -77,6 +77,7 @@ def evaluate(prop, lines, res, workdir, record=True):
     if prop.retry_env:
         # real-time observations: anything that looks wrong is observed again with generous waits, sequentially
         sus = [k for k, (l, m, i) in enumerate(zip(lines, model, impl)) if prop.oracle(l, i) is not None or not prop.compare(l, m, i)]
+        sus = sus[:60]   # beyond that something is broken anyway; keep the run short
         if sus:
             env = dict(prop.impl_env or {})
             env.update(prop.retry_env)
